@@ -5,18 +5,21 @@
    killed director leaves is a PREFIX of the statement sequence.  What later opens look at:
      happ   PRAGMA application_id holds StepUp's id (a new file holds 0)
      hver   PRAGMA user_version holds the current schema version
-     hobjs  the schema objects (tables, indexes, triggers) created so far, numbered in script order;
-            every CREATE of the scripts is IF NOT EXISTS (tied by the oracle: the scripts are run
-            again on every prefix)
+     hobjs  the persistent schema objects (tables, indexes, triggers) present, numbered in script
+            order.  Every CREATE of the scripts is IF NOT EXISTS and every DROP is IF EXISTS and
+            directly followed by the CREATE of the same object (GENERATED from the scripts:
+            gen/GenCrashSchema.v schema_statements_idempotent, schema_drops), so no statement fails
+            when it is run again on a file that holds part of the schema.
    The ORDER of the three writing statements (1 = PRAGMA application_id, 2 = PRAGMA user_version,
-   3 = the scripts) is generated from the source: gen/GenCrashSchema.v apply_schema_writes. *)
+   3 = the scripts) is generated from the source: apply_schema_writes. *)
 From Coq Require Import List NArith Bool Arith.
 Import ListNotations.
+Open Scope nat_scope.
 
 Record head := mkH { happ : bool; hver : bool; hobjs : list nat }.
 Definition new_file : head := mkH false false [].
 
-Inductive sstmt := SAppId | SUserVersion | SCreate (i : nat).
+Inductive sstmt := SAppId | SUserVersion | SCreate (i : nat) | SDrop (i : nat).
 
 Definition memn (i : nat) (l : list nat) : bool := existsb (Nat.eqb i) l.
 Definition exec (h : head) (s : sstmt) : head :=
@@ -24,37 +27,44 @@ Definition exec (h : head) (s : sstmt) : head :=
   | SAppId => mkH true (hver h) (hobjs h)
   | SUserVersion => mkH (happ h) true (hobjs h)
   | SCreate i => if memn i (hobjs h) then h else mkH (happ h) (hver h) (hobjs h ++ [i])
+  | SDrop i => mkH (happ h) (hver h) (filter (fun j => negb (Nat.eqb j i)) (hobjs h))
   end.
 Definition run (l : list sstmt) (h : head) : head := fold_left exec l h.
 
-(* the writing statements of apply_schema for scripts with n objects, in the order of the source *)
-Definition expand (n : nat) (code : N) : list sstmt :=
+(* the statements of the scripts: object i is created, after a DROP when i is in [drops] *)
+Definition script (drops : list nat) (n : nat) : list sstmt :=
+  flat_map (fun i => (if memn i drops then [SDrop i] else []) ++ [SCreate i]) (seq 0 n).
+Definition expand (drops : list nat) (n : nat) (code : N) : list sstmt :=
   match code with
   | 1%N => [SAppId]
   | 2%N => [SUserVersion]
-  | 3%N => map SCreate (seq 0 n)
+  | 3%N => script drops n
   | _ => []
   end.
-Definition prog (order : list N) (n : nat) : list sstmt := flat_map (expand n) order.
+Definition prog (order : list N) (drops : list nat) (n : nat) : list sstmt := flat_map (expand drops n) order.
 
 Inductive sres := SOk (fresh : bool) (h : head) | SInvalidApplicationId.
 
 (* apply_schema on the file as found: is_fresh = no object at all; not fresh: another application
    id is an error, another schema version wipes the file; then the writing statements *)
-Definition open_schema (order : list N) (n : nat) (h : head) : sres :=
+Definition open_schema (order : list N) (drops : list nat) (n : nat) (h : head) : sres :=
   let fresh := match hobjs h with [] => true | _ => false end in
   if negb fresh && negb (happ h) then SInvalidApplicationId
   else
     let wipe := negb fresh && negb (hver h) in
     let h1 := if wipe then mkH (happ h) (hver h) [] else h in
-    SOk (fresh || wipe) (run (prog order n) h1).
+    SOk (fresh || wipe) (run (prog order drops n) h1).
 
-(* the file after a kill right after the k-th autocommitted statement of a first start *)
-Definition schema_crash (order : list N) (n k : nat) : head := run (firstn k (prog order n)) new_file.
-Definition complete (n : nat) : head := mkH true true (seq 0 n).
+(* the file after a kill right after the k-th autocommitted statement of a start on the file [h0] *)
+Definition schema_crash_from (h0 : head) (order : list N) (drops : list nat) (n k : nat) : head :=
+  run (firstn k (prog order drops n)) h0.
+Definition schema_crash := schema_crash_from new_file.
+(* both stamps, every object *)
+Definition complete_b (n : nat) (h : head) : bool :=
+  happ h && hver h && forallb (fun i => memn i (hobjs h)) (seq 0 n).
 
-Definition reopens_b (order : list N) (n k : nat) : bool :=
-  match open_schema order n (schema_crash order n k) with
-  | SOk _ h => happ h && hver h && (length (hobjs h) =? n)
+Definition reopens_b (order : list N) (drops : list nat) (n k : nat) : bool :=
+  match open_schema order drops n (schema_crash order drops n k) with
+  | SOk _ h => complete_b n h
   | SInvalidApplicationId => false
   end.
